@@ -428,6 +428,19 @@ def main(argv):
         path, reproduced = replay(prop, mod, r, o, replay_dir, search=True)
         if reproduced:
             viol_lines.append('VIOLATION property=%s replay=%s obligation=%s/%s' % (prop, path, qn, o['name']))
+    # a function that can no longer be analysed after a code change (a new loop without an invariant, a construct
+    # outside the subset): nothing is proved about it; its replayer searches (bounded) for a failing input on the real
+    # code -- found: a violation with that input; not found: the verdict stays UNDECIDED
+    for r in results:
+        if r.get('error') and r['error'][0] in ('unsupported',) and r['qualname'] not in by_func and \
+                r['qualname'] not in searched and not only:
+            if getattr(mod, 'REPLAYERS', {}).get(r['qualname'].split('@')[0]):
+                searched.add(r['qualname'])
+                ob = {'name': 'unanalysable.' + re.sub(r'[^A-Za-z0-9]+', '_', r['error'][1])[:60], 'path': '',
+                      'backend': 'none', 'model': None, 'detail': r['error'][1]}
+                path, reproduced = replay(prop, mod, r, ob, replay_dir, search=True)
+                if reproduced:
+                    viol_lines.append('VIOLATION property=%s replay=%s obligation=%s/%s' % (prop, path, r['qualname'], ob['name']))
     for qn, lst in by_func.items():
         tops = [(r, o) for r, o in lst if not is_aux(o['name'])]
         if tops:
